@@ -472,3 +472,6 @@ func vh_C17_L5_scheduler_instances_are_independent() {
 // C17.L1e: the same on the client side: interleaving follows everything the honoured INIT
 // ACK lists, whether in one Supported Extensions parameter or spread over two (= C04.L6b).
 func vh_C17_L1_framing_follows_init_ack() { vh_C04_L6_agreement_follows_init_ack() }
+
+// C17.L1f: the supported-extensions list is found behind unknown parameters (= C12.L4).
+func vh_C17_L1_extensions_found_behind_unknown_parameters() { vh_C12_L4_init_unknown_parameter_is_skipped() }
